@@ -276,3 +276,8 @@ LEVEL_NOTE = ("Trusted: Coq kernel and VM; the transcription Model/StreamType.v,
               "exhaustive on the finite part); extraction and executor glue; fmt's %02d as re-implemented in the model; the "
               "harness builds the PMT for the PID query through psi.NewPMT. Description texts are not compared, only non-emptiness.")
 TECHNIQUE = "Coq proof (finite reflection over 256 codes; list/arithmetical reasoning for descriptor bodies) + exhaustive model/implementation correspondence"
+
+
+# coverage round (notes/coverage.md): cases and support theorems for exported identifiers outside the property text
+from gen import covlib
+covlib.install(globals())
